@@ -24,4 +24,30 @@ PROPS = {
             "trichotomy assumes int/uint->float conversions never produce NaN (FloatOps.ConvNoNaN)",
         ],
     },
+    "C19": {
+        "lean": ["UgoVerif.Props.C19"],
+        "gen": ["Adapters.lean"],
+        "streams": ["builtins"],
+        "timeout": 3000,
+        "required_theorems": ["adapters_table_safe", "adapters_safe", "dispatch_complete",
+                              "makeArray_no_panic", "repeat_no_panic", "repeat_unguarded_refuted",
+                              "stringsRepeat_no_panic", "pad_no_panic", "append_no_panic", "bytes_no_panic",
+                              "sprintf_no_panic", "println_no_panic", "isError_no_panic", "globals_no_panic",
+                              "errorNew_no_panic", "replace_no_panic", "split_no_panic", "toValidUTF8_no_panic",
+                              "stringInvoke_no_panic", "fmtPrint_no_panic", "fmtPrintf_no_panic",
+                              "unix_no_panic", "date_no_panic"],
+        "trusted": [
+            "hand models Model/Builtins.lean (Call.Get/shift, adapter template, :makeArray, repeat, append, bytes, sprintf/printf/println, isError, globals, error New, strings Repeat/Pad*/Replace/Split*/ToValidUTF8/*Func, fmt Print*/Printf, time Date/Unix) tied by stream `builtins`",
+            "goextract adapters.go: reads the guard and the literal indices of every generated adapter and time method closure; fails closed on any other use of the argument list",
+            "ugo.ToGoInt/ToGoInt64/ToGoString/ToBytes and Object.String()/TypeName() are parameters of the model (total type switches; ToGoInt uses strconv.ParseInt)",
+        ],
+        "assumptions": [
+            "Go library callees (strings, bytes, fmt, time, strconv, sort, unicode/utf8, errors) are total on their documented domains; documented panics (strings.Repeat negative count / overflow, Builder.Grow negative, make out of range) are panic branches of the model",
+            "hL: make / Builder.Grow / strings.Repeat do not *panic* for sizes up to 2^32 elements (Go's limit is maxAlloc = 2^48 bytes on 64-bit); running out of memory for a size the runtime accepts is a fatal error of the Go runtime, outside every model, and the oracle skips sizes between 2^22 and 2^47",
+            "hS: existing strings are shorter than B with 2*B + 2^32 <= makeLimit (PadLeft/PadRight repeat the pad string at least twice)",
+            "typed bodies behind adapters that only wrap a library call or a type switch (list wrapperTyped in Props/C19.lean) and the bodies newSscan/newSscanf/newScanArgFunc/parseFunc(Ex)/sleepFunc have no Lean model: they are covered by the exhaustive direct oracle only",
+            "time.Sleep is not called with more than 20ms (sleeping is what the call means); ValueEx/CallEx/CallName routes are given a VM (a Call with a nil VM is documented as valid only for callees that do not need one)",
+        ],
+        "partial": [],
+    },
 }
